@@ -178,13 +178,23 @@ pub fn check_cmap(cx: &mut Ctx, rng: &mut Rng, case: &Case, out: &[u8]) {
         observed.insert(ch, *g);
     }
     let mut exp = exp;
-    if okind == EncKind::MacRoman {
-        // bytes / characters on which Mac Roman tables legitimately differ are not judged
+    // Bytes / characters on which Mac Roman tables legitimately differ are not judged whenever a Mac
+    // Roman conversion is involved on either side: a Mac Roman source subtable (byte 0xDB becomes
+    // U+00A4 in allsorts, U+20AC in Apple's current table, whatever format the output has), the Mac
+    // Roman target, or a Mac Roman output subtable.
+    let mac_involved = sel.kind == EncKind::MacRoman || mac || okind == EncKind::MacRoman;
+    if mac_involved {
         let amb: Vec<u32> = exp.map.keys().copied().filter(|c| mac_ambiguous_char(*c)).collect();
         for a in amb {
             exp.map.remove(&a);
             exp.ambiguous.insert(a);
         }
+        let seen: Vec<u32> = observed.keys().copied().filter(|c| mac_ambiguous_char(*c)).collect();
+        for a in seen {
+            observed.remove(&a);
+            exp.ambiguous.insert(a);
+        }
+        cx.class("mac-roman-conversion-involved");
     }
     let wit = |what: String| {
         let mut j = case.witness(what);
@@ -257,7 +267,7 @@ pub fn check_cmap(cx: &mut Ctx, rng: &mut Rng, case: &Case, out: &[u8]) {
             }
             EncKind::Big5 => continue,
         };
-        if exp.optional.contains(&key) || exp.ambiguous.contains(&key) || p == 0x25CC {
+        if exp.optional.contains(&key) || exp.ambiguous.contains(&key) || p == 0x25CC || (mac_involved && (mac_ambiguous_char(p) || mac_ambiguous_char(key))) {
             continue;
         }
         jobs.push((ch, exp.map.get(&key).copied().unwrap_or(0)));
